@@ -25,6 +25,9 @@ type NextIterator struct {
 }
 
 func (n *NextIterator) Rand(length int) int {
+	// the iterator is shared by all instances of a pool and *rand.Rand is not safe for concurrent use
+	n.mx.Lock()
+	defer n.mx.Unlock()
 	return n.rnd.Intn(length)
 }
 
